@@ -722,6 +722,18 @@ func runC15(c *Ctx) error {
 			c15Total(c, c15FuzzCase{Root: root, Query: q, Vars: map[string]interface{}{}, Via: "exec"})
 		}
 	}
+	// wide and deep beyond what the loop above reaches in the quick tier: 20000 copies of one selection (the pairwise
+	// conflict check was quadratic in them for one commit of /repo), 20000 distinct aliases, and nesting beyond the
+	// parser's bound (finding C15-8: refused, not a stack overflow)
+	for _, q := range []string{
+		"query Q { " + strings.Repeat("n ", 20000) + "}",
+		"query Q { a { " + strings.Repeat("z ", 20000) + "} }",
+		"query Q { a { " + strings.Repeat("k: a2Ex { z } ", 4000) + "} }",
+		"query Q " + strings.Repeat("{ a ", 200000) + "{ z }" + strings.Repeat(" }", 200000),
+		"query Q { a(x: " + strings.Repeat("[", 200000) + "1" + strings.Repeat("]", 200000) + ") { z } }",
+	} {
+		c15Total(c, c15FuzzCase{Root: root, Query: q, Vars: map[string]interface{}{}, Via: "exec"})
+	}
 	// every ill-forming mutation of C14's repertoire at every selection set of a fixed family of queries, as
 	// generated and with the mutated selection moved to the front (independent of the seed)
 	for b := 0; b < c.N(16, 60) && !c.Rep.ShouldStop(); b++ {
